@@ -146,8 +146,8 @@ impl CargoTomlParser {
                             let text = &content[child.byte_range()];
                             let version = text
                                 .trim()
-                                .trim_start_matches('"')
-                                .trim_end_matches('"')
+                                .trim_start_matches(['"', '\''])
+                                .trim_end_matches(['"', '\''])
                                 .to_string();
                             let start_point = child.start_position();
                             version_info = Some((
@@ -164,8 +164,8 @@ impl CargoTomlParser {
                         let text = &content[child.byte_range()];
                         let version = text
                             .trim()
-                            .trim_start_matches('"')
-                            .trim_end_matches('"')
+                            .trim_start_matches(['"', '\''])
+                            .trim_end_matches(['"', '\''])
                             .to_string();
                         let start_point = child.start_position();
                         version_info = Some((
@@ -234,8 +234,8 @@ impl CargoTomlParser {
                             let text = &content[pair_child.byte_range()];
                             let version = text
                                 .trim()
-                                .trim_start_matches('"')
-                                .trim_end_matches('"')
+                                .trim_start_matches(['"', '\''])
+                                .trim_end_matches(['"', '\''])
                                 .to_string();
                             let start_point = pair_child.start_position();
                             return Some((
